@@ -20,11 +20,12 @@ ATOMS = [
     ("s_date", "2020-01-01"),
     ("s_time", "12:30"),
     ("s_dt", "2020-01-01T10:00:00"),
+    ("s_empty", ""),
     ("elist", []),
     ("eobj", {}),
 ]
 ATOM = dict(ATOMS)
-STRING_ATOMS = ["lit_a", "lit_b", "long", "s_int", "s_float", "s_bool", "s_date", "s_time", "s_dt"]
+STRING_ATOMS = ["lit_a", "lit_b", "long", "s_int", "s_float", "s_bool", "s_date", "s_time", "s_dt", "s_empty"]
 
 VALUES = list(ATOMS)
 VALUES += [(f"L({n})", [v]) for n, v in ATOMS]
